@@ -196,7 +196,8 @@ def h5_mutations(nr, nc):
           ['aset', 'format-url', 's', 'http://biom-format.org/'], ['aset', 'format-url', 's', ''],
           ['aset', 'format-version', 'ints', [2, 0]], ['aset', 'format-version', 'ints', [3, 0]],
           ['aset', 'format-version', 'ints', [1, 0]], ['aset', 'format-version', 'ints', [2, 1, 0]],
-          ['aset', 'id', 's', '']]
+          ['aset', 'id', 's', ''], ['v20', 'plain'], ['v20', 'keep-groups'], ['v20', 'int-md'],
+          ['aset', 'format-version', 'ints', [2, 0, 0]]]
     for ax in ('observation', 'sample'):
         m += [['ids', ax, 'dup'], ['ids', ax, 'blank'], ['ids', ax, 'drop'], ['ids', ax, 'extra'],
               ['ids', ax, 'group'],
@@ -228,6 +229,17 @@ def apply_h5(h, mu):
     elif op == 'gdel':
         if mu[1] in h:
             del h[mu[1]]
+    elif op == 'v20':
+        # a file that says it is BIOM 2.0: no metadata groups (plain), the 2.1 groups left in place, or a
+        # numeric dataset where 2.0 keeps its JSON text
+        h.attrs['format-version'] = np.array([2, 0])
+        if mu[1] != 'keep-groups':
+            for ax in ('observation', 'sample'):
+                for g in ('metadata', 'group-metadata'):
+                    if ax in h and isinstance(h[ax], h5py.Group) and g in h[ax]:
+                        del h[ax][g]
+        if mu[1] == 'int-md' and 'observation' in h and isinstance(h['observation'], h5py.Group):
+            h['observation'].create_dataset('metadata', data=np.arange(2))
     elif op == 'aset':
         kind, val = mu[2], mu[3]
         h.attrs[mu[1]] = (val if kind == 's' else np.array(val, dtype=np.int64) if kind == 'ints' else
@@ -394,6 +406,9 @@ LINE_RULES = [
     (r"^(observation|sample)/matrix/data is not numeric$", lambda g: [109, 0 if g[0] == 'observation' else 1, 5]),
     (r"^(observation|sample)/matrix/(indices|indptr) is not of an integer type$",
      lambda g: [109, 0 if g[0] == 'observation' else 1, 6 if g[1] == 'indices' else 7]),
+    (r"^WARNING: 2.0 is not actively supported!$", lambda g: [116]),
+    (r"^(Observation|Sample) metadata do not appear to be formatted correctly$",
+     lambda g: [117, 0 if g[0] == 'Observation' else 1]),
     (r"^Missing attribute: '(.*)'$", lambda g: [101, H_ATTRS.index(g[0])]),
     (r"^Missing required '(.*)' group$", lambda g: [102, H_GROUPS.index(g[0])]),
     (r"^Missing required '(.*)' dataset$", lambda g: [103, H_DATASETS.index(g[0])]),
@@ -453,9 +468,15 @@ def norm_md(md):
     return [m if m else {} for m in md]
 
 
-def cli_verdict(path):
+SPELLINGS = [None, 'None', '2.1', '2.1.0', '2.0', '2.0.0', '1.0', '1.0.0', '3.0', '2', 'x.y', '', '2.1.0.0', '2.1.']
+H5_21 = (None, 'None', '2.1', '2.1.0')          # every spelling of the version the library writes
+H5_20 = ('2.0', '2.0.0')
+JSON_OK = (None, 'None', '1.0.0')
+
+
+def cli_verdict(path, fv=None):
     from click.testing import CliRunner
-    r = CliRunner().invoke(validate_table, ['-i', path])
+    r = CliRunner().invoke(validate_table, ['-i', path] + ([] if fv is None else ['-f', fv]))
     out = r.output or ''
     if 'The input file is a valid BIOM-formatted file.' in out and r.exit_code == 0:
         return 'valid'
@@ -471,15 +492,16 @@ def run_json(c):
         json.dump(doc, fh)
     obs = {}
     try:
-        valid, lines = _validate_table(path)
+        valid, lines = _validate_table(path, c.get('fv'))
         obs['valid'] = bool(valid)
         obs['report'] = [line_code(ln) for ln in lines]
     except Exception as e:  # noqa
         obs['valid'] = ['exc', exc_code(e)]
         obs['report'] = []
-    obs['cli'] = cli_verdict(path)
+    obs['cli'] = cli_verdict(path, c.get('fv'))
     if c.get('subprocess'):
-        p = subprocess.run(['/venv/bin/biom', 'validate-table', '-i', path], stdout=subprocess.PIPE,
+        p = subprocess.run(['/venv/bin/biom', 'validate-table', '-i', path] +
+                           ([] if c.get('fv') is None else ['-f', c['fv']]), stdout=subprocess.PIPE,
                            stderr=subprocess.STDOUT, text=True, env=dict(os.environ, PYTHONPATH=os.environ.get(
                                'BIOM_REPO', '/repo')))
         obs['cli'] = [obs['cli'], 'valid' if p.returncode == 0 else 'invalid' if 'not a valid' in p.stdout else 'crash']
@@ -578,13 +600,13 @@ def run_h5(c):
     tree = h5_tree(path)
     obs = {}
     try:
-        valid, lines = _validate_table(path)
+        valid, lines = _validate_table(path, c.get('fv'))
         obs['valid'] = bool(valid)
         obs['report'] = [line_code(ln) for ln in lines]
     except Exception as e:  # noqa
         obs['valid'] = ['exc', exc_code(e)]
         obs['report'] = []
-    obs['cli'] = cli_verdict(path)
+    obs['cli'] = cli_verdict(path, c.get('fv'))
     tags = []
     if obs['valid'] is True:
         key = 'h5-accepted-mutant' if c['muts'] else 'h5-library-written'
@@ -647,9 +669,10 @@ def dec_json(t):
 
 def encode(c):
     obs, extra, _ = materialise(c)
+    fv = [] if c.get('fv') is None else [[ord(ch) for ch in c['fv']]]
     if c['kind'] == 'json':
-        return [0, enc_json(extra)]
-    return [1, extra[0]]
+        return [0, enc_json(extra), fv]
+    return [1, extra[0], fv]
 
 
 def decode(tree, c):
@@ -678,7 +701,7 @@ def decode(tree, c):
                                'omd': md(tr[3]), 'smd': md(tr[4]), 'type': dec_json(tr[5]),
                                'generated_by': dec_json(tr[6])}
         return out
-    rep, valid = tree
+    rep = tree[0]
     if rep[0] == -1:
         return {'valid': ['exc', rep[1]], 'report': [], 'cli': 'crash'}
     return {'valid': bool(rep[1][0]), 'report': rep[1][1], 'cli': 'valid' if rep[1][0] else 'invalid'}
@@ -767,8 +790,13 @@ def json_expected_load(doc):
 
 def h5_facts(path):
     """what the property's structural rules need to know about an HDF5 file (h5py only)"""
-    f = {'missing': [], 'blank': [], 'dup': [], 'shape_ids': None, 'range': [], 'elem': []}
+    f = {'missing': [], 'blank': [], 'dup': [], 'shape_ids': None, 'range': [], 'elem': [], 'version': None}
     with h5py.File(path, 'r') as h:
+        if 'format-version' in h.attrs:
+            try:
+                f['version'] = [int(x) for x in h.attrs['format-version']]
+            except (TypeError, ValueError):
+                f['version'] = repr(h.attrs['format-version'])
         for a in H_ATTRS:
             if a not in h.attrs:
                 f['missing'].append('attribute ' + a)
@@ -818,10 +846,13 @@ def oracle(c, obs):
         fails.append('unrecognised report line %s' % [r for r in obs['report'] if r[0] == 999][:1])
     if c['kind'] == 'json':
         doc = extra
-        if not c['muts']:
+        if not c['muts'] and c.get('fv') in JSON_OK:
             if not valid:
-                fails.append('library-written JSON file (%s form) of a vocabulary-type table is not reported valid: %s %s'
-                             % (c.get('writer', 'returned string'), obs['valid'], obs['report']))
+                fails.append('library-written JSON file (%s form, --format-version %r) of a vocabulary-type table is not '
+                             'reported valid: %s %s' % (c.get('writer', 'returned string'), c.get('fv'), obs['valid'],
+                                                        obs['report']))
+        if valid and c.get('fv') not in JSON_OK:
+            fails.append('a JSON file is reported valid as format version %r' % c.get('fv'))
         bad = json_violations(doc)
         if bad and valid:
             fails.append('reported valid although: %s' % '; '.join(bad[:2]))
@@ -840,11 +871,18 @@ def oracle(c, obs):
                     fails.append('loaded values differ from the declared ones')
         return fails[:3]
     tree, facts = extra
-    if not c['muts'] and not valid:
-        fails.append('library-written HDF5 file of a vocabulary-type table is not reported valid: %s %s'
-                     % (obs['valid'], obs['report']))
+    fv = c.get('fv')
+    if not c['muts'] and fv in H5_21 and not valid:
+        fails.append('library-written HDF5 file of a vocabulary-type table is not reported valid with '
+                     '--format-version %r: %s %s' % (fv, obs['valid'], obs['report']))
     if valid:
+        if fv not in H5_21 + H5_20:
+            fails.append('an HDF5 file is reported valid as format version %r' % fv)
+        elif facts['version'] != ([2, 0] if fv in H5_20 else [2, 1]):
+            fails.append('reported valid as format version %r although the file says %s' % (fv, facts['version']))
         for m in facts['missing']:
+            if fv in H5_20 and m.endswith('metadata'):
+                continue                         # BIOM 2.0 has no metadata groups
             fails.append('reported valid although required %s is missing' % m)
         for ax in facts['blank']:
             fails.append('reported valid although a %s ID is empty' % ax)
@@ -879,6 +917,15 @@ def gen(rng, tier):
         nr, nc = len(b['oids']), len(b['sids'])
         yield {'kind': 'json', 'spec': b, 'muts': []}
         yield {'kind': 'json', 'spec': b, 'muts': [], 'writer': 'direct_io'}
+        for fv in SPELLINGS[1:]:
+            # every spelling of --format-version on library-written files of the three forms
+            yield {'kind': 'json', 'spec': b, 'muts': [], 'fv': fv}
+            yield {'kind': 'json', 'spec': b, 'muts': [], 'writer': 'direct_io', 'fv': fv}
+            yield {'kind': 'h5', 'spec': b, 'muts': [], 'fv': fv}
+            for mu in (['v20', 'plain'], ['v20', 'keep-groups'], ['v20', 'int-md'],
+                       ['aset', 'format-version', 'ints', [2, 1, 0]], ['aset', 'format-version', 'ints', [2, 0, 0]],
+                       ['gdel', 'observation/metadata'], ['ids', 'sample', 'blank']):
+                yield {'kind': 'h5', 'spec': b, 'muts': [mu], 'fv': fv}
         for mu in mutations(nr, nc):
             yield {'kind': 'json', 'spec': b, 'muts': [mu]}
         yield {'kind': 'h5', 'spec': b, 'muts': []}
@@ -893,18 +940,25 @@ def gen(rng, tier):
         yield {'kind': 'json', 'spec': s, 'muts': [], 'writer': 'direct_io', 'generated_by': rng.choice(['gen', 'x y']),
                'date': [rng.choice([1, 1999, 2024]), rng.randint(1, 12), rng.randint(1, 28), rng.randint(0, 23),
                         rng.randint(0, 59), rng.randint(0, 59), rng.choice([0, 5, 999999])]}
-        yield {'kind': 'h5', 'spec': s, 'muts': []}
+        yield {'kind': 'h5', 'spec': s, 'muts': [], 'fv': rng.choice(SPELLINGS)}
+        yield {'kind': 'json', 'spec': s, 'muts': [], 'fv': rng.choice(SPELLINGS),
+               'writer': rng.choice(['direct_io', 'string'])}
     for _ in range(n_rand):
         s = rand_table(rng)
         ms = mutations(len(s['oids']), len(s['sids']))
         c = {'kind': 'json', 'spec': s, 'muts': [rng.choice(ms) for _ in range(rng.choice([1, 2, 2]))]}
         if rng.random() < 0.3:
             c['writer'] = 'direct_io'
+        if rng.random() < 0.2:
+            c['fv'] = rng.choice(['None', '1.0.0', '1.0.0', '1.0', '2.1'])
         yield c
     for _ in range(n_h5):
         s = rand_table(rng)
         ms = h5_mutations(len(s['oids']), len(s['sids']))
-        yield {'kind': 'h5', 'spec': s, 'muts': [rng.choice(ms) for _ in range(rng.choice([1, 2, 2]))]}
+        c = {'kind': 'h5', 'spec': s, 'muts': [rng.choice(ms) for _ in range(rng.choice([1, 2, 2]))]}
+        if rng.random() < 0.4:
+            c['fv'] = rng.choice(['None', '2.1', '2.1.0', '2.1.0', '2.0', '2.0.0', '1.0.0'])
+        yield c
     if tier == 'thorough':
         b = BASES[0]
         ms = mutations(2, 3)
@@ -915,6 +969,12 @@ def gen(rng, tier):
         for m1 in hs:
             for m2 in hs:
                 yield {'kind': 'h5', 'spec': b, 'muts': [m1, m2]}
+        for fv in ('2.1', '2.1.0', '2.0', '2.0.0', 'None'):
+            for m1 in hs:
+                yield {'kind': 'h5', 'spec': b, 'muts': [m1], 'fv': fv}
+        for fv in ('1.0.0', 'None'):
+            for m1 in ms:
+                yield {'kind': 'json', 'spec': b, 'muts': [m1], 'fv': fv}
         for k in range(40):
             yield {'kind': 'json', 'spec': BASES[1], 'muts': [rng.choice(mutations(3, 2))], 'subprocess': True}
 
@@ -924,7 +984,7 @@ def nontrivial(c):
 
 
 def classify(c):
-    tags = [c['kind'] + (':mutations=%d' % len(c['muts']))]
+    tags = [c['kind'] + (':mutations=%d' % len(c['muts'])), '%s:format-version=%r' % (c['kind'], c.get('fv'))]
     if c['kind'] == 'json':
         tags.append('json-writer:' + c.get('writer', 'string'))
     for mu in c['muts']:
